@@ -73,6 +73,8 @@ func lockHeld(p *walk.Path, at int, base walk.DV, mu *types.Var) (bool, bool) {
 }
 
 func runC20(c *Ctx) {
+	c.R.Rule("RS-no-request-time-state", "request handling writes no state that outlives the request (package-level variables, objects built at start-up, constructor variables captured by handlers) declared in the packages implementing this property", 1)
+	runStateless(c, "RS-no-request-time-state", "main.UserMap", "pkg/authentication", "pkg/watcher")
 	r := c.R
 	r.Rule("R1-lock-discipline", "every shared access to htpasswdMap.users holds rwm (write lock for stores)", 8)
 	r.Rule("R2-immutable-after-publish", "no map mutation through a published htpasswdMap; reload installs a locally built map; Validate compares against the entry it read", 3)
